@@ -18,7 +18,7 @@ RULE = ('designs of strata S1, S1x, S2, S3, S4, S5, S6 (quick: fixed core + seed
 ASSUMPTIONS = ['reference arithmetic in vt/ref.py is the documented one (readings A5 where under-specified)']
 BUDGET_S = {'quick': 60, 'thorough': 300}
 STRATA = ['S1', 'S1x', 'S2', 'S3', 'S4', 'S5', 'S6']
-QUICK_CAPS = {'S1': 300, 'S1x': 80, 'S2': 130, 'S3': 100, 'S4': 100, 'S5': 120, 'S6': 50}
+QUICK_CAPS = dsw.QUICK_CAPS
 GENS = ['sat', 'rnd', 'cms', 'uni', 'iter', 'uniform', 'sm']
 
 
